@@ -39,6 +39,13 @@ func c04Templates() []exprTemplate {
 		{"add", TInt, bin("+", T(1), T(2))},
 		{"sub-mul", TInt, bin("-", T(1), bin("*", T(2), T(3)))},
 		{"group-mul", TInt, bin("*", Group{bin("+", T(1), T(2))}, T(3))},
+		{"sub-group-right", TInt, bin("-", T(1), Group{bin("+", T(2), T(3))})},
+		{"mul-group-right", TInt, bin("*", T(1), Group{bin("-", T(2), T(3))})},
+		{"group-both-sides", TInt, bin("-", Group{bin("+", T(1), T(2))}, Group{bin("*", T(3), T(4))})},
+		{"cmp-group-right", TBool, cmp("<", T(1), Group{bin("+", T(2), T(3))})},
+		{"and-group-right", TBool, logic("&&", Bf(1, true), Group{logic("||", Bf(2, false), Bf(3, true))})},
+		{"concat-group-right", TString, bin("+", Sf(1, "a"), Group{bin("+", Sf(2, "b"), Sf(3, "c"))})},
+		{"call-minus-group-of-calls-nested", TInt, bin("-", T(1), Group{bin("-", T(2), Group{bin("-", T(3), T(4))})})},
 		{"div-mod", TInt, bin("+", bin("/", T(9), T(2)), bin("%", T(7), T(3)))},
 		{"four-ops", TInt, bin("-", bin("+", T(1), bin("*", T(2), T(3))), bin("/", T(8), T(4)))},
 		{"cmp-int", TBool, cmp("<", T(1), T(2))},
@@ -268,6 +275,12 @@ func c04Families(c *Check) []BashCase {
 		"switch-empty-trailing-cases":   {def("x", il(9)), Switch{Tag: vr("x"), Cases: []SwitchCase{{E: T(1), Body: []Stmt{pr(sl("c1"))}}, {E: T(2), Body: []Stmt{}}, {E: T(3), Body: []Stmt{}}}}, pr(sl("after"))},
 		"switch-tagless-empty-cases":    {Switch{Cases: []SwitchCase{{E: Bf(1, false), Body: []Stmt{}}, {E: Bf(2, true), Body: []Stmt{}}, {E: Bf(3, true), Body: []Stmt{}}}}, pr(sl("after"))},
 		"switch-empty-default":          {def("x", il(5)), Switch{Tag: vr("x"), Cases: []SwitchCase{{E: T(1), Body: []Stmt{pr(sl("c1"))}}, {E: T(2), Body: []Stmt{}}, {Default: true, Body: []Stmt{}}}}, pr(sl("after"))},
+		// a branch that ends in a jump and is taken: the conditions behind it have been evaluated all the same
+		"elseif-behind-continue":        {For{Kind: ForThree, Init: def("i", il(0)), Cond: cmp("<", vr("i"), il(3)), Post: IncDec{"i", true}, Body: []Stmt{If{Branches: []IfBranch{{cmp("==", vr("i"), il(1)), []Stmt{pr(sl("skip")), Continue{}}}, {Bf(2, true), []Stmt{pr(sl("second"), vr("i"))}}, {Bf(3, true), []Stmt{pr(sl("third"))}}}, HasElse: true, Else: []Stmt{pr(sl("else"))}}, pr(sl("body"), vr("i"))}}},
+		"elseif-behind-break":           {For{Kind: ForThree, Init: def("i", il(0)), Cond: cmp("<", vr("i"), il(3)), Post: IncDec{"i", true}, Body: []Stmt{If{Branches: []IfBranch{{cmp("==", vr("i"), il(1)), []Stmt{pr(sl("stop")), Break{}}}, {Bf(2, false), []Stmt{pr(sl("second"))}}}}, pr(sl("body"), vr("i"))}}},
+		"elseif-behind-return":          {fn("pick", []Param{{"k", TInt}}, []Type{TInt}, If{Branches: []IfBranch{{cmp("==", vr("k"), il(1)), []Stmt{ret(il(10))}}, {Bf(2, true), []Stmt{ret(il(20))}}, {Bf(3, true), []Stmt{ret(il(30))}}}}, ret(il(40))), pr(call("pick", il(1)), call("pick", il(2)))},
+		"cases-behind-continue":         {For{Kind: ForThree, Init: def("i", il(0)), Cond: cmp("<", vr("i"), il(3)), Post: IncDec{"i", true}, Body: []Stmt{Switch{Tag: vr("i"), Cases: []SwitchCase{{E: T(1), Body: []Stmt{pr(sl("one")), Continue{}}}, {E: T(2), Body: []Stmt{pr(sl("two"))}}, {Default: true, Body: []Stmt{pr(sl("other"))}}}}, pr(sl("body"), vr("i"))}}},
+		"cases-behind-return":           {fn("name", []Param{{"k", TInt}}, []Type{TString}, Switch{Tag: vr("k"), Cases: []SwitchCase{{E: T(1), Body: []Stmt{ret(sl("one"))}}, {E: T(2), Body: []Stmt{ret(sl("two"))}}, {E: T(3), Body: []Stmt{ret(sl("three"))}}}}, ret(sl("many"))), pr(call("name", il(1)), call("name", il(3)), call("name", il(9)))},
 		"switch-case-expressions":       {def("x", il(2)), Switch{Tag: vr("x"), Cases: []SwitchCase{{E: T(1), Body: []Stmt{pr(sl("c1"))}}, {E: T(2), Body: []Stmt{pr(sl("c2")), ExprStmt{T(22)}}}, {Default: true, Body: []Stmt{pr(sl("d"))}}, {E: T(3), Body: []Stmt{pr(sl("c3"))}}}}},
 		"switch-tagless":                {Switch{Cases: []SwitchCase{{E: Bf(1, false), Body: []Stmt{pr(sl("c1"))}}, {Default: true, Body: []Stmt{pr(sl("d")), ExprStmt{T(5)}}}, {E: Bf(2, false), Body: []Stmt{pr(sl("c2"))}}}}},
 		"switch-string":                 {def("k", sl("b")), Switch{Tag: vr("k"), Cases: []SwitchCase{{E: Sf(1, "a"), Body: []Stmt{pr(sl("ca"))}}, {E: Sf(2, "b"), Body: []Stmt{pr(sl("cb"))}}, {E: Sf(3, "b"), Body: []Stmt{pr(sl("cb2"))}}}}},
@@ -290,7 +303,7 @@ func c04Families(c *Check) []BashCase {
 	for _, k := range sortedStmtKeys(ctl) {
 		cases = append(cases, BashCase{Key: "E/ctl/" + k, Prog: SingleFile(append(append(c04Prelude(), ctl[k]...), final))})
 		stm := append(c04Prelude(), fn("ctx", nil, nil, ctl[k]...), callS("ctx"), final)
-		if k != "return-values-order" && k != "condition-in-function-loop" {
+		if k != "return-values-order" && k != "condition-in-function-loop" && k != "elseif-behind-return" && k != "cases-behind-return" {
 			cases = append(cases, BashCase{Key: "E/ctl/" + k + "/func", Prog: SingleFile(stm)})
 		}
 	}
